@@ -13,6 +13,7 @@
 //            NegateSet, AllSet; table `setTable`)
 //   <pay>    s1: std::vector<long> (SizeOne, one long per index)        s3: std::vector<FieldVector<long,3>> (SizeOne)
 //            v<k>: VariableSize CommPolicy, index with global index g carries 1+((g+k) mod 3) longs
+//            w<k>: the same with (g+k) mod 3 longs (indices without any component occur)
 //   <pol>    copy | add        (what the recording gather/scatter policy does with a scattered value)
 //   <comm>   buf (BufferedCommunicator) | dt (DatatypeCommunicator, copy only)
 //   <cont>   c1: ranks with one index set communicate inside one container (forward(data)), c2: always two containers
@@ -112,7 +113,7 @@ template <> struct CommPolicy<VV> {
   typedef VV Type;
   typedef long IndexedType;
   typedef VariableSize IndexedTypeFlag;
-  static const void* getAddress(const VV& v, int i) { return &v.flat[v.off[i]]; }
+  static const void* getAddress(const VV& v, int i) { return v.flat.data() + v.off[i]; }
   static int getSize(const VV& v, int i) { return v.sz[i]; }
 };
 }  // namespace Dune
@@ -178,14 +179,14 @@ struct Case {
   std::vector<bool> two;
   bool ign = false;
   int S = 0, T = 0;
-  int pay = 0;   // 0 s1, 1 s3, 2 v
-  int vk = 0;
+  int pay = 0;   // 0 s1, 1 s3, 2 v / w
+  int vk = 0, vbase = 1;
   bool add = false, dt = false, c1 = false;
   std::string rounds;
   std::vector<std::array<std::vector<Ent>, 2>> set;  // [rank][0 src / 1 tgt], sorted by global
   const std::vector<Ent>& tgt(int r) const { return two[r] ? set[r][1] : set[r][0]; }
   bool oneC(int r) const { return c1 && !two[r]; }
-  int blk(long g) const { return pay == 0 ? 1 : (pay == 1 ? 3 : 1 + (int)(((g + vk) % 3 + 3) % 3)); }
+  int blk(long g) const { return pay == 0 ? 1 : (pay == 1 ? 3 : vbase + (int)(((g + vk) % 3 + 3) % 3)); }
 };
 static bool inMask(int m, int a) { return (m >> a) & 1; }
 
@@ -249,7 +250,8 @@ static bool parseCase(const std::string& line, Case& c, std::string& why) {
   c.T = (int)t;
   if (hw[6] == "s1") c.pay = 0;
   else if (hw[6] == "s3") c.pay = 1;
-  else if (hw[6] == "v0" || hw[6] == "v1" || hw[6] == "v2") { c.pay = 2; c.vk = hw[6][1] - '0'; }
+  else if (hw[6] == "v0" || hw[6] == "v1" || hw[6] == "v2") { c.pay = 2; c.vk = hw[6][1] - '0'; c.vbase = 1; }
+  else if (hw[6] == "w0" || hw[6] == "w1" || hw[6] == "w2") { c.pay = 2; c.vk = hw[6][1] - '0'; c.vbase = 0; }
   else { why = "pay"; return false; }
   if (hw[7] == "copy") c.add = false; else if (hw[7] == "add") c.add = true; else { why = "pol"; return false; }
   if (hw[8] == "buf") c.dt = false; else if (hw[8] == "dt") c.dt = true; else { why = "comm"; return false; }
@@ -492,7 +494,13 @@ template <class Data> static Result runCase(const Case& c) {
         return s;
       };
       auto eg = canonCalls(expG), gg = canonCalls(gLog), es = canonCalls(expS), gs = canonCalls(sLog);
-      failIf(eg != gg, rd + "gather calls (local,comp,value) " + showCalls(gg) + " expected " + showCalls(eg));
+      // every shared source entry has to be gathered; how often the policy is asked is not part of the property
+      {
+        std::set<Call> have(gg.begin(), gg.end());
+        bool covered = true;
+        for (auto& x : eg) covered = covered && have.count(x) > 0;
+        failIf(!covered, rd + "gather calls (local,comp,value) " + showCalls(gg) + " do not cover the expected " + showCalls(eg));
+      }
       failIf(es != gs, rd + "scatter calls (local,comp,value) " + showCalls(gs) + " expected " + showCalls(es));
       nCalls += (long)sLog.size();
       if (!expS.empty()) nontrivial = true;
@@ -548,7 +556,7 @@ static Result exec(const std::string& line) {
     bool any2 = false, all2 = true;
     for (int r = 0; r < c.P; ++r) { any2 = any2 || c.two[r]; all2 = all2 && c.two[r]; }
     stat(all2 ? "sets_two" : (any2 ? "sets_mixed" : "sets_one"));
-    stat(c.pay == 0 ? "pay_s1" : (c.pay == 1 ? "pay_s3" : "pay_var"));
+    stat(c.pay == 0 ? "pay_s1" : (c.pay == 1 ? "pay_s3" : (c.vbase ? "pay_var" : "pay_var_with_empty")));
     stat(c.add ? "pol_add" : "pol_copy");
     stat(c.dt ? "comm_datatype" : "comm_buffered");
     stat(c.c1 ? "cont_one" : "cont_two");
@@ -578,7 +586,7 @@ static std::string gen(Rng& rng, long, const Args& args) {
   if (rng.coin(7, 10)) { auto& n = nice[rng.below(sizeof(nice) / sizeof(nice[0]))]; S = n[0]; T = n[1]; }
   else { S = (int)rng.below(16); T = rng.coin(1, 4) ? S : (int)rng.below(16); }
   int pk = (int)rng.below(10);
-  std::string pay = pk < 4 ? "s1" : (pk < 6 ? "s3" : "v" + std::to_string(rng.below(3)));
+  std::string pay = pk < 4 ? "s1" : (pk < 6 ? "s3" : (pk < 9 ? "v" : "w") + std::to_string(rng.below(3)));
   bool dt = rng.coin(1, 5);
   bool add = !dt && rng.coin(2, 5);
   std::string cont = rng.coin() ? "c1" : "c2";
@@ -593,6 +601,8 @@ static std::string gen(Rng& rng, long, const Args& args) {
   // attribute style: 0 = one owner per global index, others overlap/copy (grid like); 1 = random
   int attrStyle = (int)rng.below(2);
   std::vector<std::string> segs;
+  struct GenEnt { int s, r; long g; int a; bool pub; };
+  std::vector<GenEnt> ents;
   std::vector<std::array<std::vector<long>, 2>> freeLoc(P);
   for (int r = 0; r < P; ++r)
     for (int s = 0; s < 2; ++s) {
@@ -620,7 +630,22 @@ static std::string gen(Rng& rng, long, const Args& args) {
         freeLoc[r][s].pop_back();
         segs.push_back(std::to_string(s) + "," + std::to_string(r) + "," + std::to_string(g) + "," + std::to_string(l) + "," +
                        std::to_string(attr) + "," + (pub ? "1" : "0"));
+        ents.push_back(GenEnt{s, r, g, attr, pub});
       }
+    }
+  }
+  // half of the time aim the attribute sets at a pair of entries that really is shared (keeps trivial cases rare)
+  if (!ents.empty() && rng.coin()) {
+    for (int tries = 0; tries < 20; ++tries) {
+      const GenEnt& e = ents[rng.below(ents.size())];
+      const GenEnt& f = ents[rng.below(ents.size())];
+      if (e.s != 0 || e.g != f.g) continue;
+      if (f.s != (two[f.r] ? 1 : 0)) continue;
+      if (e.r == f.r && !two[e.r]) continue;
+      if (!ign && (!e.pub || !f.pub)) continue;
+      S = (1 << e.a) | (rng.coin(1, 3) ? (int)rng.below(16) : 0);
+      T = (1 << f.a) | (rng.coin(1, 3) ? (int)rng.below(16) : 0);
+      break;
     }
   }
   if (rng.coin()) for (size_t i = segs.size(); i > 1; --i) std::swap(segs[i - 1], segs[rng.below(i)]);
